@@ -23,6 +23,7 @@ class Item:
 
 class Rule:
     def __init__(self, items, caret=None, opt=None, line=0):
+        self.tree = None
         self.items = items
         self.caret = caret        # 0-based item index before which ^ is written
         self.opt = opt or []      # list of (start, end) 0-based inclusive optional ranges
@@ -109,7 +110,8 @@ class Prog:
                         d["attrs"] = [[a, op, ir_] for (a, op, _t, ir_) in it.attrs]
                         d["constraint"] = it.constraint[1] if it.constraint else None
                         items.append(d)
-                    rl.append({"items": items, "caret": r.caret, "opt": [list(o) for o in r.opt], "line": r.line})
+                    rl.append({"items": items, "caret": r.caret, "opt": [list(o) for o in r.opt], "line": r.line,
+                               "tree": r.tree})
                 passes.append({"index": pidx, "table": ttype, "rules": rl})
                 pidx += 1
         def conv(t):
@@ -663,6 +665,88 @@ def gen_ref_program(rng, missing=False):
         r.line = len(lines) + env.count("\n")
     lines += ["endpass;", "endtable;"]
     prog.raw_gdl = "\n".join(lines) + "\n"
+    return prog
+
+
+def tree_ranges(tree, n=0):
+    out = []
+    for e in tree:
+        if isinstance(e, int):
+            n += 1
+        else:
+            inner, n2 = tree_ranges(e, n)
+            out.append((n, n2 - 1))
+            out += inner
+            n = n2
+    return out, n
+
+
+def gen_opt_program(rng, refs=False):
+    """Family 'optional' (C07): rules with optional single items, groups, nested and adjacent groups in the context,
+    combined with substitutions, deletions, '^', and (refs=True) selectors/associations that may point into groups."""
+    prog = Prog()
+    prog.nglyphs = rng.choice([16, 24])
+    prog.font, _g, prog.cmap = ttf.simple_font(prog.nglyphs)
+    gen_classes(rng, prog, rng.randint(3, 6), 2, prog.nglyphs, maxsize=4)
+    names = prog.class_order
+    passes = []
+    for _p in range(rng.randint(1, 2)):
+        rules = []
+        for _r in range(rng.randint(1, 3)):
+            counter = [0]
+
+            def mk(depth):
+                seq = []
+                for _ in range(rng.randint(1, 3)):
+                    if depth < 3 and rng.random() < 0.45 and counter[0] < 6:
+                        body = mk(depth + 1)
+                        if body:
+                            seq.append(body)
+                    elif counter[0] < 7:
+                        seq.append(counter[0])
+                        counter[0] += 1
+                return seq
+            tree = mk(0)
+            if counter[0] == 0:
+                tree = [0]
+                counter[0] = 1
+            nitems = counter[0]
+            ranges, n2 = tree_ranges(tree)
+            assert n2 == nitems
+            # top-level (non-optional) item indices
+            top = [e for e in tree if isinstance(e, int)]
+            items = []
+            for i in range(nitems):
+                cls = rng.choice(names)
+                if rng.random() < 0.45:
+                    n = len(prog.classes[cls])
+                    cands = [x for x in names if len(prog.classes[x]) in (1, n) and _nodup(prog.classes[x])]
+                    if cands and _nodup(prog.classes[cls]):
+                        items.append(Item(cls=cls, mod=True, out=("cls", rng.choice(cands), None)))
+                    else:
+                        items.append(Item(cls=cls, mod=True, out=None))
+                else:
+                    items.append(Item(cls=cls))
+            if not any(it.mod for it in items):
+                k = rng.choice(top) if top else 0
+                items[k].mod = True
+            r = Rule(items, opt=ranges)
+            r.tree = tree
+            if rng.random() < 0.2:
+                r.caret = rng.randint(1, nitems)
+            if refs and rng.random() < 0.6:
+                # a copy (@n) or association referring to another item
+                mods = [i for i, it in enumerate(items) if it.mod and it.out is not None]
+                if mods:
+                    i = rng.choice(mods)
+                    j = rng.randrange(nitems)
+                    if rng.random() < 0.5:
+                        items[i].out = ("copy", j + 1)
+                    else:
+                        items[i].assoc = [j + 1]
+            rules.append(r)
+        passes.append(rules)
+    prog.tables.append(("sub", passes))
     return prog
 
 
